@@ -738,6 +738,10 @@ func (v *vdrRun) loop() {
 				v.retried = true
 				r.killPending(0)
 				r.Final, r.ErrMsg = "", ""
+				// the storage goroutines of the mrp that is going away belong to its
+				// lifetime: let them finish before the new one loads the directory
+				time.Sleep(3 * time.Millisecond)
+				r.ps.VerifStorageBarrier()
 				v.observe(false)
 				if err := r.Restart(); err != nil {
 					r.Final = "error:" + err.Error()
